@@ -1309,11 +1309,49 @@ impl<'c, W: WorldDriver> Session<'c, W> {
         Ok(())
     }
 
+    /// `Archetype::iter(_mut)` consumed through `skip` / `step_by` / `nth` / `count` / `last`:
+    /// every item is a live entity with its own values, no entity twice, and the number of
+    /// items is what the adaptor promises.
+    pub fn iterate_adaptor(&mut self, si: usize, a: usize, path: IterPath, k: usize) -> R {
+        let obs = match catch(|| W::iterate(&mut self.sims[si].w, a, path, Some(k))) {
+            Ok(o) => o,
+            Err(m) => return Err(self.fail(&["C06"], "iterate-panic", format!("{:?}({}) over {} panicked: {}", path, k, self.infos[a].name, m))),
+        };
+        let n = self.sims[si].archs[a].live.len();
+        let want = path.expected_items(n, k);
+        if obs.len() != want {
+            return Err(self.fail(&["C06"], "iter-count", format!("{:?}({}) over {} yielded {} items, expected {} ({} live entities)", path, k, self.infos[a].name, obs.len(), want, n)));
+        }
+        let mut seen = BTreeSet::new();
+        for o in &obs {
+            let raw = match o.raw {
+                Some(r) => r,
+                None => return Err(self.fail(&["C06"], "iter-adaptor-inconsistent", format!("{:?} over {}: size_hint / count / last disagree with a plain walk", path, self.infos[a].name))),
+            };
+            if !seen.insert(raw) {
+                return Err(self.fail(&["C06"], "iter-duplicate", format!("{:?}({}) over {} yielded {:?} twice", path, k, self.infos[a].name, raw)));
+            }
+            let bad = match self.sims[si].archs[a].live.get(&raw) {
+                None => Some(format!("{:?}({}) over {} yielded {:?}, which is not a live entity", path, k, self.infos[a].name, raw)),
+                Some(e) if e.vals != o.vals || e.trk != o.trk => Some(format!("{:?}({}) over {} paired {:?} with stamps {:x?}, expected {:x?}", path, k, self.infos[a].name, raw, o.vals, e.vals)),
+                _ => None,
+            };
+            if let Some(m) = bad {
+                return Err(self.fail(&["C06", "C02"], "iter-wrong-values", m));
+            }
+        }
+        self.count("iterations", 1);
+        Ok(())
+    }
+
     pub fn judge_iteration_pub(&mut self, si: usize, what: &str, matches: &[(usize, Vec<usize>)], obs: &[Obs], brk: Option<usize>, reads_values: bool) -> R {
         self.judge_iteration(si, what, matches, obs, brk, reads_values)
     }
 
     pub fn do_iterate(&mut self, si: usize, a: usize, path: IterPath, brk: u8) -> R {
+        if path.adaptor() {
+            return self.iterate_adaptor(si, a, path, (brk as usize % 4) + if path == IterPath::ArchIterStepBy { 1 } else { 0 });
+        }
         let brk = if brk == 0 || !path.supports_break() { None } else { Some(brk as usize - 1) };
         let r = catch(|| W::iterate(&mut self.sims[si].w, a, path, brk));
         let obs = match r {
@@ -1433,9 +1471,9 @@ impl<'c, W: WorldDriver> Session<'c, W> {
             }
             self.do_drop_world(last)?;
         }
-        let (zc0, _) = reg(|r| {
+        let (zc0, tc0) = reg(|r| {
             r.clone_log.clear();
-            (r.zst_clones, 0)
+            (r.zst_clones, r.tok_clones)
         });
         let r = catch(|| self.sims[si].w.clone_world());
         let w2 = match r {
@@ -1449,7 +1487,7 @@ impl<'c, W: WorldDriver> Session<'c, W> {
             }
         };
         let log: Vec<(u64, u64)> = reg(|r| std::mem::take(&mut r.clone_log));
-        let zc1 = reg(|r| r.zst_clones);
+        let (zc1, tc1) = reg(|r| (r.zst_clones, r.tok_clones));
         let mut map: BTreeMap<u64, u64> = BTreeMap::new();
         for (src, new) in &log {
             if map.insert(*src, *new).is_some() {
@@ -1483,7 +1521,12 @@ impl<'c, W: WorldDriver> Session<'c, W> {
             drop(w2);
             return Err(self.fail(&["C04", "C13"], "clone-count", format!("world.clone() made {} clones of tracked components ({} of the zero-sized one), expected {} ({})", log.len(), zc1 - zc0, live_tracked, zst_expected)));
         }
-        if live_tracked + zst_expected > 0 {
+        let tok_expected: usize = self.sims[si].archs.iter().enumerate().map(|(a, m)| m.live.len() * self.infos[a].tok_cols).sum();
+        if (tc1 - tc0) as usize != tok_expected {
+            drop(w2);
+            return Err(self.fail(&["C04", "C13"], "clone-count-no-drop-glue", format!("world.clone() called Clone::clone {} times on the components without drop glue (Tok), expected exactly once per live component = {}", tc1 - tc0, tok_expected)));
+        }
+        if live_tracked + zst_expected + tok_expected > 0 {
             self.label("clone_with_live_tracked");
         }
         // label: free slot in the middle of the slot array
